@@ -302,6 +302,10 @@ func (x *Exec) callFunc(fn *types.Func, recv Value, args []Value, st *State, e *
 	}
 	fc := x.prog.Contracts.Funcs[key]
 	fi := x.prog.FuncsByObj[fn]
+	if fc != nil && staleSignature(fc, sig) != "" {
+		fc = nil // a contract written for another interface says nothing about this call: the body is used instead
+		x.abstractions["call to "+key+": its contract is stale (signature changed), the body was inlined"] = true
+	}
 	if fc != nil && fc.Opts["callback"] != "" {
 		if v, ok := x.callbackCall(fc, key, sig, args, st, pos); ok {
 			return v
